@@ -61,6 +61,9 @@ def cases(tier):
             out.append({'spec': spec, 'format': fmt})
     # more than 10^4 (quick) / 10^5 (thorough) cells: the width of index fields in attribute tables
     big = [{'family': 'cf1d', 'ny': 101, 'nx': 100, 'bounds': 'var', 'nt': 1, 'nk': 1},
+           # exactly 4096 and 8192 cells with polygons (whole batches)
+           {'family': 'cf1d', 'ny': 64, 'nx': 64, 'bounds': 'var', 'nt': 1, 'nk': 1},
+           {'family': 'cf2d', 'ny': 64, 'nx': 128, 'nt': 1, 'nk': 1},
            # native indexes such as ["face", 103, 11]: long text in the attribute table
            {'family': 'shoc_standard', 'nj': 104, 'ni': 12, 'dry': 'corner', 'nt': 1, 'nk': 1}]
     if tier == 'thorough':
